@@ -100,6 +100,9 @@ static bool runScenario(Scenario& sc, Rng& r, bool stress, const std::string& ta
   bus.attach();
   bus.autoSyn = true;
   bus.gluePct = r.pick(std::vector<int>{0, 0, 30, 100});      // a SYN may arrive together with the symbols that follow it
+  bus.echoGluePct = r.pick(std::vector<int>{0, 0, 50});
+  if (bus.enhanced) bus.strayBeforeStartedPct = r.pick(std::vector<int>{0, 0, 25, 60});
+  else { bus.strayAfterArbPct = r.pick(std::vector<int>{0, 0, 0, 30}); bus.dropArbWriteAt = r.chance(1, 5) ? (long)r.range(0, 3) : -1; }
   Item s; s.kind = Item::SYN;
   for (int i = 0; i < 4; i++) bus.script.push_back(s);
   for (auto& it : sc.items) bus.script.push_back(it);
